@@ -13,7 +13,8 @@ RULE = ("all sequences of <=3 notes over the pitch alphabet {21,22,32,33,60,96,9
 ASSUMPTIONS = ["when octave wrapping happens only the image/in-range/return-value clauses apply (the library re-normalises "
                "and re-quantises lengths there)"]
 REQUIRED_FLAGS = ["after_history", "aliased_messages_inside_sequence", "wrapped_up", "wrapped_down", "not_wrapped_exact", "interval_multiple_of_12", "interval_beyond_range",
-                  "key_event_transposed", "bar_key_transposed", "collision_after_wrap", "roundtrip_checked"]
+                  "key_event_transposed", "bar_key_transposed", "collision_after_wrap", "roundtrip_checked",
+                  "seven_or_more_notes_held_at_once", "scale_ladder"]
 
 PITCHES = [21, 22, 32, 33, 60, 96, 97, 107, 108]
 TONIC = {"C": 0, "G": 7, "D": 2, "A": 9, "E": 4, "B": 11, "F#": 6, "C#": 1, "F": 5, "Bb": 10, "Eb": 3, "Ab": 8,
@@ -37,6 +38,10 @@ def units(ctx):
             yield ("seq4", iv)
     yield from hist.hist_units()
     yield ("long", 0)
+    for k in range(4):
+        yield ("scale", k)
+    for b in (21, 24, 30, 35):
+        yield ("stack", b)
 
 
 def _alpha(ctx):
@@ -53,6 +58,26 @@ def gen_cases(unit, ctx):
                 ns = lib.long_desc(n, base, (ctx["ch"], ctx["ch"] + 1, 9), 12, lens=(12, 6, 24, 12))
                 for iv in (0, 1, -1, 5, 12, -13, 40, -40, 87, 100, -100):
                     yield {"notes": [list(x) for x in ns], "key": "Eb", "bar": False, "iv": iv, "long": True}
+        return
+    if unit[0] == "scale":
+        # scale ladder: 129 ... 1025 notes, low / middle / high register, built through either representation (only that
+        # one is current when transpose is called), intervals up to the largest a pitch can move
+        n = lib.LADDER[unit[1] + 2]
+        for base in (23, 60, 102):
+            ns = lib.long_desc(n, base, (ctx["ch"], ctx["ch"] + 1, 9), 12, lens=(12, 6, 24, 12))
+            for iv in (1, -1, 7, 12, 19, 24, -24, 36, -36, 48, 87, -87, 127, -127):
+                yield {"notes": [list(x) for x in ns], "key": "Eb", "bar": False, "iv": iv, "long": True,
+                       "build": "rel" if (iv + n) % 2 else "abs"}
+        return
+    if unit[0] == "stack":
+        # many notes held at once: every octave of one pitch class inside the range sounds, one of them enters late
+        b = unit[1]
+        stack = list(range(b, 109, 12))
+        for late in (0, len(stack) - 1, len(stack) // 2, None):
+            ns = [[24 if i == late else 0, 12 if i == late else 48, p, ctx["ch"], 40 + i] for i, p in enumerate(stack)]
+            for extra in ([], [[6, 6, b + 5, ctx["ch"] + 1, 9]]):
+                for iv in list(range(-15, 16)) + [26, -26, 38, -38, 87, -87, 100, -100]:
+                    yield {"notes": ns + extra, "key": None, "bar": False, "iv": iv, "long": True, "build": "abs" if iv % 2 else "rel"}
         return
     if unit[0] == "hist":
         for h in hist.hist_of_unit(unit):
@@ -107,7 +132,14 @@ def check_case(case, ctx):
     else:
         notes = case["notes"]
         events = [("ks", 0, key)] if key else []
-        s = lib.seq_abs(notes, events, dur=24 if not case.get("long") else None)
+        if case.get("build") == "rel":
+            s = lib.seq_rel(notes, events, None)
+        else:
+            s = lib.seq_abs(notes, events, dur=24 if not case.get("long") else None)
+        if len(notes) >= 7 and len({n[0] for n in notes}) <= 3:
+            R.flags.append("seven_or_more_notes_held_at_once")
+        if len(notes) >= 129:
+            R.flags.append("scale_ladder")
     obj = s
     bar = None
     if case["bar"]:
